@@ -33,7 +33,7 @@ git -C /repo apply $OUT/patch.diff || { log "patch does not apply to /repo HEAD"
 RES=""
 for c in ${CHECKS//,/ }; do
   s=$(date +%s)
-  ./check $c quick > /tmp/seed-$P-check-$c.log 2>&1; rc=$?
+  VERIF_EVIDENCE_DIR=/tmp/verif-mut-evidence ./check $c quick > /tmp/seed-$P-check-$c.log 2>&1; rc=$?
   e=$(( $(date +%s) - s ))
   RES="$RES $c:exit$rc:${e}s"
   log "check $c quick -> exit $rc (${e}s) $(grep -m1 -a 'violation sub=' /tmp/seed-$P-check-$c.log | cut -c1-260)"
